@@ -37,6 +37,8 @@ pub const DECOS: [(&str, &str); 20] = [
 pub enum Variant {
     Gap(usize, usize),
     TwoGaps(usize, usize, usize, usize),
+    /// the single blank between two tokens replaced by a block comment (k-th such blank, decoration)
+    ReplaceSep(usize, usize),
     AllCrLf,
     NoFinalNewline,
     Options(Vec<&'static str>),
@@ -107,6 +109,20 @@ pub fn gaps(src: &str) -> (Vec<String>, Vec<usize>) {
     (t, g)
 }
 
+/// token indices of blanks that are exactly one space between two non-blank tokens on a code line
+pub fn single_blanks(src: &str) -> (Vec<String>, Vec<usize>) {
+    let (t, g) = gaps(src);
+    let mut v = Vec::new();
+    for gi in &g {
+        // g holds tokens after which a decoration may be inserted: the blank follows such a token
+        let i = *gi + 1;
+        if i + 1 < t.len() && t[i] == " " && !t[i + 1].trim().is_empty() && !t[i + 1].contains('\n') {
+            v.push(i);
+        }
+    }
+    (t, v)
+}
+
 fn decorate(t: &[String], at: &[(usize, usize)]) -> String {
     let mut s = String::new();
     for (i, tok) in t.iter().enumerate() {
@@ -134,6 +150,17 @@ pub fn cases(tier: Tier) -> Vec<DCase> {
                     continue;
                 }
                 v.push(DCase { prog: pi, variant: Variant::Gap(gi, d) });
+            }
+        }
+        {
+            let (_t2, blanks) = single_blanks(p);
+            for k in 0..blanks.len() {
+                for d in [5usize, 10, 11, 8] {
+                    if tier == Tier::Quick && d != 10 && (k + d) % 2 != 0 {
+                        continue;
+                    }
+                    v.push(DCase { prog: pi, variant: Variant::ReplaceSep(k, d) });
+                }
             }
         }
         if tier == Tier::Thorough {
@@ -185,6 +212,12 @@ pub fn run(progs: &[String], c: &DCase) -> CaseOutcome {
     let (src, vname, opts_var): (String, String, Vec<&'static str>) = match &c.variant {
         Variant::Gap(gi, d) => (decorate(&t, &[(g[*gi], *d)]), format!("gap {} ({:?} | {:?}) + {}", gi, t[g[*gi]], t.get(g[*gi] + 1).map(|s| s.trim()).unwrap_or(""), DECOS[*d].0), vec![]),
         Variant::TwoGaps(g1, d1, g2, d2) => (decorate(&t, &[(g[*g1], *d1), (g[*g2], *d2)]), format!("gaps {}+{} {}+{}", g1, g2, DECOS[*d1].0, DECOS[*d2].0), vec![]),
+        Variant::ReplaceSep(k, d) => {
+            let (t2, blanks) = single_blanks(base);
+            let mut t3 = t2.clone();
+            t3[blanks[*k]] = DECOS[*d].1.to_string();
+            (t3.concat(), format!("blank {} ({:?} | {:?}) replaced by {}", k, t2[blanks[*k] - 1], t2[blanks[*k] + 1], DECOS[*d].0), vec![])
+        }
         Variant::AllCrLf => (base.replace('\n', "\r\n"), "all line ends CR-LF".into(), vec![]),
         Variant::NoFinalNewline => (base.trim_end_matches('\n').to_string(), "no final newline".into(), vec![]),
         Variant::Options(o) => (base.clone(), format!("options {:?}", o), o.clone()),
@@ -291,7 +324,7 @@ impl Check for C11 {
         "exploration"
     }
     fn rule(&self) -> String {
-        "Base programs: the 30-program corpus (all statement kinds, preprocessor lines, comments) plus a slice of the control-flow and function families. Variants: each of 17 decorations (space, tab, newline, CR-LF, blank lines, block comments containing //, a quote, a directive, a URL, '* /', empty and two-line block comments, // comments containing /* and quotes, backslash-newline) inserted at every token gap outside directive lines, one gap at a time and always in addition to the existing separator (thorough: also pairs of gaps); all line ends CR-LF; no final newline; options --insert_code, -Wall, -Wperf, -v. Oracle (differential): same ordered declaration list and, per function, identical instruction text at -O0 and -O1 (comments and cycle annotations stripped); for option variants a text difference is followed by co-execution on the emulator from all enumerated inputs and only a behavioural difference is a violation. A variant that turns an accepted program into a rejected one is a violation. Non-trivial = both sides compiled; distinct = distinct (program, variant).".into()
+        "Base programs: the 30-program corpus (all statement kinds, preprocessor lines, comments) plus a slice of the control-flow and function families. Variants: each of 17 decorations (space, tab, newline, CR-LF, blank lines, block comments containing //, a quote, a directive, a URL, '* /', empty and two-line block comments, // comments containing /* and quotes, backslash-newline) inserted at every token gap outside directive lines, one gap at a time in addition to the existing separator (thorough: also pairs of gaps), and every single blank between two tokens replaced by a block comment (a comment separates tokens like a blank); all line ends CR-LF; no final newline; options --insert_code, -Wall, -Wperf, -v. Oracle (differential): same ordered declaration list and, per function, identical instruction text at -O0 and -O1 (comments and cycle annotations stripped); for option variants a text difference is followed by co-execution on the emulator from all enumerated inputs and only a behavioural difference is a violation. A variant that turns an accepted program into a rejected one is a violation. Non-trivial = both sides compiled; distinct = distinct (program, variant).".into()
     }
     fn assumptions(&self) -> Vec<String> {
         vec!["decorations are never inserted inside directive lines or existing comments".into(), "a decoration never replaces the only separator between two word tokens".into()]
